@@ -29,6 +29,7 @@ EXTENDS Naturals, Sequences, FiniteSets, TLC
 CONSTANTS ASlots,     \* attachment slots ("n1".."n3"): values "none","p0","p1"
           NSlots,     \* node slots ("n4"): values "absent","tA","tB"
           Prog,       \* sequence of programs [k, a, b, v]
+          AsBuiltClean, \* TRUE: the clean-overlap test as it was before /repo de1c2a1 (documentation only)
           None        \* model value
 
 VARIABLES wls,        \* worldline id -> [val : slot -> value, hist : Seq(entry)]   (runtime frontier + provenance)
@@ -135,7 +136,13 @@ PlanLoop(sfx, i, sim, blocked, acc, b, st, pol) ==
                      Append(acc, Decision("conflict", "UnsupportedImport", "none", {}, t, TRUE, sim)), b, st, pol)
        ELSE IF eo = {}
        THEN PlanLoop(sfx, i + 1, cand, blocked, Append(acc, Decision("import", "", "none", {}, t, Lawful(e, sim), cand)), b, st, pol)
-       ELSE IF \A s \in eo : sim[s] = cand[s]             \* overlap_slots_are_clean
+       \* Clean (since /repo de1c2a1): applying the patch leaves the overlapped parent slots unchanged
+       \* (overlap_slots_are_clean(simulated, candidate)) AND on every overlapped slot the parent then
+       \* holds the value the SOURCE lane held after this entry (source_simulated, followed from the fork
+       \* basis: overlap_slots_are_clean(source, candidate)).  A patch is a diff and carries no read
+       \* values, so without the second conjunct a stale read or a write of the basis value passed.
+       \* Consequence: a pure read of a slot whose value the parent changed is now a conflict (plural).
+       ELSE IF (\A s \in eo : sim[s] = cand[s]) /\ (AsBuiltClean \/ \A s \in eo : cand[s] = e.after[s])
        THEN PlanLoop(sfx, i + 1, cand, blocked, Append(acc, Decision("import", "", "clean", eo, t, Lawful(e, sim), cand)), b, st, pol)
        ELSE IF pol = "plural"
        THEN PlanLoop(sfx, i + 1, sim, "PluralUpstream", Append(acc, Decision("plural", "", "none", eo, t, TRUE, sim)), b, st, pol)
@@ -309,14 +316,15 @@ SettleAllOrNothing ==
        /\ \A i \in 1..Len(last.dec) :
             wls[last.target].hist[Len(last.before[last.target].hist) + i].kind = last.dec[i].kind
 \* an entry imported past an unmoved or disjointly moved parent gives the parent the strand's
-\* values on every slot the entry wrote; through a clean overlap, on every slot outside the overlap
+\* values on every slot the entry wrote; through a clean overlap too since /repo de1c2a1 (before it,
+\* only on the slots outside the overlap: AsBuiltClean)
 ImportedSlotsTakeStrandValues ==
   last.op = "settled" =>
     \A i \in 1..Len(last.dec) :
       LET d == last.dec[i]
           x == wls[last.target].hist[Len(last.before[last.target].hist) + i]
           e == wls[reg[last.w].child].hist[d.t + 1]
-      IN d.kind = "import" => \A s \in e.out \ d.eo : x.after[s] = e.after[s]
+      IN d.kind = "import" => \A s \in e.out : (AsBuiltClean /\ s \in d.eo) \/ x.after[s] = e.after[s]
 \* no slot the parent wrote after the anchor changes value during settlement; retained
 \* (conflict / plural) entries change nothing at all
 ParentChangedSlotsNeverOverwritten ==
@@ -333,8 +341,9 @@ BlockingIsSticky ==
 \* every lane is verifiable from its own history and equals its live state
 ParentStaysReplayable ==
   stl = None => \A w \in DOMAIN wls : LET r == Replay(wls[w].hist) IN r.ok /\ r.val = wls[w].val
-\* NOT an invariant of the code as built (MC_C15_asbuilt.cfg shows the counterexample): an imported
-\* entry has the effect its tick would have had on the parent basis
+\* an imported entry has the effect its tick would have had on the parent basis.  Holds since the
+\* source-lane revalidation of /repo de1c2a1; MC_C15_asbuilt.cfg (AsBuiltClean = TRUE) keeps the
+\* counterexample of the earlier test (findings F8 stale read / F9 dropped write).
 ImportsReplayCleanly ==
   last.op = "settled" => \A i \in 1..Len(last.dec) : last.dec[i].lawful
 =============================================================================
